@@ -37,7 +37,7 @@ def main():
             elif k == "poly":
                 r1, z1 = [p[0] for p in c["w1"]], [p[1] for p in c["w1"]]
                 r2, z2 = [p[0] for p in c["w2"]], [p[1] for p in c["w2"]]
-                out.append({"x": bool(polygons.intersect(r1, z1, r2, z2))})
+                out.append({"x": bool(polygons.intersect(r1, z1, r2, z2, closed1=c.get("c1", True), closed2=c.get("c2", True)))})
             elif k == "closest":
                 d = closest_approach(c["p"], c["a"], c["b"])
                 out.append({"d2": float(d) ** 2})
